@@ -71,6 +71,14 @@ func buildWorld() (*world, error) {
 		if i%5 == 2 {
 			s.ExtraAssets = []*blockchain.BlockAsset{{Module: "mod0", Data: []byte{1, 2, 3}}, {Module: "mod1", Data: []byte{}}}
 		}
+		if i == worldBlocks-1 {
+			// the tip block changes the BFT parameters (certificate threshold only): parameters are REGISTERED for height tip+1 although
+			// no block exists there - the state right after genesis and after every validator-set change (added after seeded change C09-q:
+			// a single commit for height tip+1 was looked up, not found, and dereferenced)
+			next := node.EqualGenesis(worldValidators)
+			next.Cert++
+			s.Script.Next = &next
+		}
 		b, err := n.Apply(s)
 		if err != nil {
 			return nil, fmt.Errorf("apply block %d: %w", i, err)
@@ -115,6 +123,24 @@ func buildWorld() (*world, error) {
 			scs = append(scs, certificate.NewSingleCommit(hd, keys[ix].Addr, node.ChainID, keys[ix].BLSPriv))
 		}
 		w.commits = append(w.commits, (&consensus.EventPostSingleCommits{SingleCommits: scs[:1]}).Encode(), (&consensus.EventPostSingleCommits{SingleCommits: scs}).Encode())
+	}
+	// single commits for heights around the tip, where no (or no finalized) block exists: tip-1, tip, tip+1, tip+2, signed by an active
+	// validator over a fabricated header of that height, and over the real header where there is one
+	{
+		tip := n.Tip().Header
+		for _, dh := range []int{-1, 0, 1, 2, 3} {
+			fake := *tip
+			fake.Height = uint32(int(tip.Height) + dh)
+			fake.ID = bytes.Repeat([]byte{byte(0x40 + dh)}, 32)
+			var scs []*certificate.SingleCommit
+			for _, ix := range []int{0, 1} {
+				scs = append(scs, certificate.NewSingleCommit(&fake, keys[ix].Addr, node.ChainID, keys[ix].BLSPriv))
+			}
+			if hd, err := n.Chain.DataAccess().GetBlockHeaderByHeight(fake.Height); err == nil {
+				scs = append(scs, certificate.NewSingleCommit(hd, keys[2].Addr, node.ChainID, keys[2].BLSPriv))
+			}
+			w.commits = append(w.commits, (&consensus.EventPostSingleCommits{SingleCommits: scs[:1]}).Encode(), (&consensus.EventPostSingleCommits{SingleCommits: scs}).Encode())
+		}
 	}
 	// candidate blocks on top of the tip (not applied): with an aggregate commit, with transactions, with impliesMaxPrevotes
 	for i, agg := range w.aggs[:2] {
